@@ -17,7 +17,8 @@
     what remains assumed is [PayInv] at that moment and proceeds = price x winners (C03).  Not covered: the NFT-fee share when the fee
     uses the same token (C14; oracle + balance correspondence). *)
 From LP Require Import Proofs.Tactics Proofs.LedgerBase Proofs.Gates Proofs.Frames Proofs.Settle Proofs.Confirm Proofs.Ledger
-  Proofs.ClaimLedger Proofs.Filter Proofs.Partition Proofs.Examples.
+  Proofs.ClaimLedger Proofs.Loop Proofs.Resume Proofs.FisherYates Proofs.Shuffle Proofs.Rng Proofs.Filter Proofs.Partition
+  Proofs.GuaranteedLoop Proofs.Leftover Proofs.Lifecycle Proofs.Examples.
 Open Scope N_scope.
 
 Theorem C01_confirm_keeps_solvency : forall (H : list N -> list N) v e b sd w n w' r A,
@@ -141,6 +142,60 @@ Theorem C01_drained : forall w A,
   bal w sc_addr (pay_token (st w)) 0 = 0.
 Proof. exact ClaimInv_drained. Qed.
 
+(** ** end to end (contracts without an additional step: launchpad, launchpad-locked-tokens):
+    from a well-formed state at the end of the confirmation window ([PreSel]: no pending operation,
+    allocation chain, confirmations within allocations, nothing marked, [PayInv]) through
+    filterTickets and selectWinners - each interrupted any number of times, by anybody, at any block -
+    to the claim-period invariant; the ranges tile 1..total, the winners are the textbook
+    Fisher-Yates winners on the words of the first selectWinners call's seed, proceeds = price x
+    winners; then any order of settlements and withdrawals, and an empty till at the end. *)
+Theorem C01_pipeline : forall (H : list N -> list N) l w0 lf wf ef bf w1 ls ws es bs w2 sd rest,
+  PreSel w0 l ->
+  after_interrupted filter_tickets lf w0 = Some wf -> filter_tickets ef bf wf = Ok (w1, 0) ->
+  seeds w1 = sd :: rest ->
+  after_interrupted (select_winners H) ls w1 = Some ws -> select_winners H es bs ws = Ok (w2, 0) ->
+  let A := map fst l in
+  let total := sumN (map (confirmed (st w0)) A) in
+  let k := N.min (nr_winning (st w0)) total in
+  let wins := fst (fy (N.to_nat k) (range_ids 1 total) (rng_words H (N.to_nat k) {| r_seed := sd; r_index := 0 |})) in
+  ClaimInv w2 A /\
+  Layout (range (st w2)) (confirmed (st w2)) 0 A /\ last_ticket_id (st w2) = total /\
+  nr_winning (st w2) = k /\ (forall t, status (st w2) t = true <-> In t wins) /\ NoDup wins /\
+  claimable_payment (st w2) = price (st w0) * k /\ confirmed (st w2) = confirmed (st w0).
+Proof. exact pipeline_to_claims. Qed.
+
+Theorem C01_pipeline_drained : forall (H : list N -> list N) l w0 lf wf ef bf w1 ls ws es bs w2 sd rest w3,
+  PreSel w0 l ->
+  after_interrupted filter_tickets lf w0 = Some wf -> filter_tickets ef bf wf = Ok (w1, 0) ->
+  seeds w1 = sd :: rest ->
+  after_interrupted (select_winners H) ls w1 = Some ws -> select_winners H es bs ws = Ok (w2, 0) ->
+  pay_steps w2 w3 ->
+  (forall a, In a (map fst l) -> confirmed (st w3) a = 0) -> claimable_payment (st w3) = 0 ->
+  bal w3 sc_addr (pay_token (st w3)) 0 = 0.
+Proof. exact pipeline_drained. Qed.
+
+(** the guaranteed-ticket contracts (gt1 mig lgt: [v2 = false]; gt2: [v2 = true]): the same with the
+    distribution step as third stage, interrupted arbitrarily too: claim-period invariant, final
+    count = reported winners = min(base + reserved, total) with proceeds to match (C03, C12), every
+    listed holder honoured with tickets of its own range (C11) *)
+Theorem C01_pipeline_gt : forall (H : list N -> list N) v2 l w0 lf wf ef bf w1 ls ws es bs w2 sd rest ld wd ed bd w3,
+  PreSel w0 l -> NoDup (gt_users (st w0)) ->
+  after_interrupted filter_tickets lf w0 = Some wf -> filter_tickets ef bf wf = Ok (w1, 0) ->
+  seeds w1 = sd :: rest ->
+  after_interrupted (select_winners H) ls w1 = Some ws -> select_winners H es bs ws = Ok (w2, 0) ->
+  after_interrupted (distribute_guaranteed_tickets H v2) ld w2 = Some wd ->
+  distribute_guaranteed_tickets H v2 ed bd wd = Ok (w3, 0) ->
+  ClaimInv w3 (map fst l) /\
+  dist_result v2 (st w2) (st w3) /\
+  (forall u, In u (gt_users (st w2)) -> owed v2 (st w2) u <= own_winning (st w2) (st w3) u) /\
+  (forall t, status (st w2) t = true -> status (st w3) t = true).
+Proof. exact pipeline_gt. Qed.
+
+(** [PreSel] is satisfied by a state reached from deployment through real transactions (allocation of
+    3 + 2 tickets, deposit, two confirmations of 2) *)
+Example C01_pipeline_nonvacuous : PreSel base_confirmed [(2, 3); (3, 2)].
+Proof. exact base_confirmed_PreSel. Qed.
+
 (** the decidable part of [ClaimInv] holds in a concrete state after the base selection *)
 Example C01_claim_nonvacuous :
   let s := st base_selected in
@@ -173,5 +228,9 @@ Print Assumptions C01_owner.
 Print Assumptions C01_owner_gt.
 Print Assumptions C01_any_order.
 Print Assumptions C01_drained.
+Print Assumptions C01_pipeline.
+Print Assumptions C01_pipeline_drained.
+Print Assumptions C01_pipeline_gt.
+Print Assumptions C01_pipeline_nonvacuous.
 Print Assumptions C01_claim_nonvacuous.
 Print Assumptions C01_nonvacuous.
